@@ -122,7 +122,7 @@ func (p *Parser) parseComparisonExpression() (ast.Expression, error) {
 				fmt.Sprintf("failed to parse BETWEEN lower bound: %v", err),
 				p.currentLocation(),
 				p.currentToken.Literal,
-			)
+			).WithCause(err)
 		}
 
 		// Expect AND keyword
@@ -138,7 +138,7 @@ func (p *Parser) parseComparisonExpression() (ast.Expression, error) {
 				fmt.Sprintf("failed to parse BETWEEN upper bound: %v", err),
 				p.currentLocation(),
 				p.currentToken.Literal,
-			)
+			).WithCause(err)
 		}
 
 		return &ast.BetweenExpression{
@@ -161,7 +161,7 @@ func (p *Parser) parseComparisonExpression() (ast.Expression, error) {
 				fmt.Sprintf("failed to parse LIKE pattern: %v", err),
 				p.currentLocation(),
 				p.currentToken.Literal,
-			)
+			).WithCause(err)
 		}
 
 		return &ast.BinaryExpression{
@@ -182,7 +182,7 @@ func (p *Parser) parseComparisonExpression() (ast.Expression, error) {
 				fmt.Sprintf("failed to parse REGEXP pattern: %v", err),
 				p.currentLocation(),
 				p.currentToken.Literal,
-			)
+			).WithCause(err)
 		}
 		return &ast.BinaryExpression{
 			Left:     left,
@@ -211,7 +211,7 @@ func (p *Parser) parseComparisonExpression() (ast.Expression, error) {
 					fmt.Sprintf("failed to parse IN subquery: %v", err),
 					p.currentLocation(),
 					p.currentToken.Literal,
-				)
+				).WithCause(err)
 			}
 
 			// Expect closing parenthesis
@@ -236,7 +236,7 @@ func (p *Parser) parseComparisonExpression() (ast.Expression, error) {
 					fmt.Sprintf("failed to parse IN value: %v", err),
 					models.Location{Line: 0, Column: 0},
 					"",
-				)
+				).WithCause(err)
 			}
 			values = append(values, value)
 
@@ -315,7 +315,7 @@ func (p *Parser) parseComparisonExpression() (ast.Expression, error) {
 					fmt.Sprintf("failed to parse %s subquery: %v", quantifier, err),
 					models.Location{Line: 0, Column: 0},
 					"",
-				)
+				).WithCause(err)
 			}
 
 			// Expect closing parenthesis
@@ -768,7 +768,7 @@ func (p *Parser) parsePrimaryExpression() (ast.Expression, error) {
 					fmt.Sprintf("failed to parse subquery: %v", err),
 					models.Location{Line: 0, Column: 0},
 					"",
-				)
+				).WithCause(err)
 			}
 			// Expect closing parenthesis
 			if !p.isType(models.TokenTypeRParen) {
@@ -869,7 +869,7 @@ func (p *Parser) parsePrimaryExpression() (ast.Expression, error) {
 				fmt.Sprintf("failed to parse EXISTS subquery: %v", err),
 				models.Location{Line: 0, Column: 0},
 				"",
-			)
+			).WithCause(err)
 		}
 
 		// Expect closing parenthesis
@@ -900,7 +900,7 @@ func (p *Parser) parsePrimaryExpression() (ast.Expression, error) {
 					fmt.Sprintf("failed to parse NOT EXISTS subquery: %v", err),
 					models.Location{Line: 0, Column: 0},
 					"",
-				)
+				).WithCause(err)
 			}
 
 			if !p.isType(models.TokenTypeRParen) {
@@ -959,7 +959,7 @@ func (p *Parser) parseCaseExpression() (*ast.CaseExpression, error) {
 				fmt.Sprintf("failed to parse CASE value: %v", err),
 				models.Location{Line: 0, Column: 0},
 				"",
-			)
+			).WithCause(err)
 		}
 		caseExpr.Value = value
 	}
@@ -975,7 +975,7 @@ func (p *Parser) parseCaseExpression() (*ast.CaseExpression, error) {
 				fmt.Sprintf("failed to parse WHEN condition: %v", err),
 				models.Location{Line: 0, Column: 0},
 				"",
-			)
+			).WithCause(err)
 		}
 
 		// Expect THEN keyword
@@ -991,7 +991,7 @@ func (p *Parser) parseCaseExpression() (*ast.CaseExpression, error) {
 				fmt.Sprintf("failed to parse THEN result: %v", err),
 				models.Location{Line: 0, Column: 0},
 				"",
-			)
+			).WithCause(err)
 		}
 
 		caseExpr.WhenClauses = append(caseExpr.WhenClauses, ast.WhenClause{
@@ -1019,7 +1019,7 @@ func (p *Parser) parseCaseExpression() (*ast.CaseExpression, error) {
 				fmt.Sprintf("failed to parse ELSE result: %v", err),
 				models.Location{Line: 0, Column: 0},
 				"",
-			)
+			).WithCause(err)
 		}
 		caseExpr.ElseClause = elseResult
 	}
@@ -1318,7 +1318,7 @@ func (p *Parser) parseArrayAccessExpression(arrayExpr ast.Expression) (ast.Expre
 						fmt.Sprintf("failed to parse array slice end: %v", err),
 						p.currentLocation(),
 						"",
-					)
+					).WithCause(err)
 				}
 				endExpr = end
 			}
@@ -1345,7 +1345,7 @@ func (p *Parser) parseArrayAccessExpression(arrayExpr ast.Expression) (ast.Expre
 				fmt.Sprintf("failed to parse array index/slice: %v", err),
 				p.currentLocation(),
 				"",
-			)
+			).WithCause(err)
 		}
 
 		// Check if this is a slice (has colon) or subscript
@@ -1361,7 +1361,7 @@ func (p *Parser) parseArrayAccessExpression(arrayExpr ast.Expression) (ast.Expre
 						fmt.Sprintf("failed to parse array slice end: %v", err),
 						p.currentLocation(),
 						"",
-					)
+					).WithCause(err)
 				}
 				endExpr = end
 			}
